@@ -111,6 +111,11 @@ def gen_target(rng, features, n, continuous):
     else:
         s = [score[repr(v)] for v in col]
     if continuous:
+        mode = rng.choice(["int", "int", "sixteenth", "tenth"])
+        if mode == "sixteenth":      # fractional, exactly representable (ratios within one unit)
+            return [round(16 * (si + rng.gauss(0, 0.2))) / 16 for si in s]
+        if mode == "tenth":          # non-dyadic values
+            return [round(10 * si + rng.gauss(0, 2)) / 10 for si in s]
         return [float(round(10 * si + rng.gauss(0, 2))) for si in s]
     return [1 if rng.random() < 0.15 + 0.6 * si else 0 for si in s]
 
@@ -151,6 +156,9 @@ def gen_case(rng, cls=None, force=None):
             params["sort_by"] = rng.choice(["tschuprowt", "cramerv"])
     case = {"cls": cls, "params": params, "json": rng.random() < 0.4, "features": feats,
             "y": gen_target(rng, feats, n, continuous)}
+    if rng.random() < 0.2:
+        case["kwargs"] = rng.choice([{"str_nan": "MISSING"}, {"str_default": "RARE"},
+                                     {"str_nan": "MISSING", "str_default": "RARE"}])
     return case
 
 
@@ -195,30 +203,31 @@ def fit_object(case):
         return obj
     X = build_frame(case)
     y = pd.Series(case["y"])
+    kw = dict(case.get("kwargs") or {})
     quant = [f["name"] for f in case["features"] if f["kind"] == "quant"]
     cat = [f["name"] for f in case["features"] if f["kind"] == "cat"]
     ordi = [f["name"] for f in case["features"] if f["kind"] == "ord"]
     orders = {f["name"]: GroupedList(decs(f["order"])) for f in case["features"] if f["kind"] == "ord"}
     if cls == "Discretizer":
         obj = Discretizer(quantitative_features=quant, qualitative_features=cat, ordinal_features=ordi,
-                          values_orders=orders, min_freq=p["min_freq"], copy=True, verbose=False)
+                          values_orders=orders, min_freq=p["min_freq"], copy=True, verbose=False, **kw)
     elif cls == "QuantitativeDiscretizer":
         obj = QuantitativeDiscretizer(quantitative_features=quant, min_freq=p["min_freq"], copy=True,
-                                      verbose=False)
+                                      verbose=False, **{k: v for k, v in kw.items() if k == "str_nan"})
     elif cls == "QualitativeDiscretizer":
         obj = QualitativeDiscretizer(qualitative_features=cat, ordinal_features=ordi,
                                      values_orders=orders, min_freq=p["min_freq"], copy=True,
-                                     verbose=False)
+                                     verbose=False, **kw)
     elif cls == "BinaryCarver":
         obj = BinaryCarver(sort_by=p["sort_by"], min_freq=p["min_freq"], quantitative_features=quant,
                            qualitative_features=cat, ordinal_features=ordi, values_orders=orders,
                            max_n_mod=p["max_n_mod"], output_dtype=p["output_dtype"],
-                           dropna=p["dropna"], copy=True, verbose=False, pretty_print=False)
+                           dropna=p["dropna"], copy=True, verbose=False, pretty_print=False, **kw)
     elif cls == "ContinuousCarver":
         obj = ContinuousCarver(min_freq=p["min_freq"], quantitative_features=quant,
                                qualitative_features=cat, ordinal_features=ordi, values_orders=orders,
                                max_n_mod=p["max_n_mod"], output_dtype=p["output_dtype"],
-                               dropna=p["dropna"], copy=True, verbose=False, pretty_print=False)
+                               dropna=p["dropna"], copy=True, verbose=False, pretty_print=False, **kw)
     else:
         raise ValueError(cls)
     obj.fit(X, y)
